@@ -81,7 +81,16 @@ def handleLoad (inp : Bytes) (obs : List String) : String :=
       match pTorrent rest with
       | some (t, "PIECES" :: prest) =>
         (match specLax with
-         | none => ["c10-loads-illformed"]
+         | none =>
+           -- a document the specification refuses was loaded: is the reported info-hash at least the SHA-1 of SOME
+           -- dictionary-shaped slice of the input? (inputs of a few hundred bytes only: the search is quadratic)
+           ["c10-loads-illformed"] ++
+           (if inp.length ≤ 400 &&
+               !((List.range inp.length).any (fun a => inp[a]! == 100 &&
+                 (List.range (inp.length - a)).any (fun k =>
+                   let b := a + k + 1
+                   inp[b - 1]! == 101 && Sha1.sha1 ((inp.drop a).take (b - a)) == t.infoHash)))
+            then ["c07-infohash"] else [])
          | some st =>
            (if st.info == t.info then [] else ["c10-fields"]) ++
            (if st.infoHash == t.infoHash then [] else ["c07-infohash"]) ++
@@ -94,7 +103,7 @@ def handleLoad (inp : Bytes) (obs : List String) : String :=
              -- every byte of every file belongs to some piece: the piece lengths add up to the total length
              (if (ps.map (·.len)).sum == (fileLens t).sum then [] else ["c06-coverage"])
            | _ => ["c06-unparsable-observation"]
-         | _ => ["c06-panic"])
+         | _ => ["c06-panic", "c09-layout-panic"])
       | _ => ["c10-unparsable-observation"]
     | ["err"] => if spec.isSome then ["c10-rejects-wellformed"] else []
     | ["panic"] => ["c09-panic"]
